@@ -20,6 +20,7 @@ import (
 	"fmt"
 	"hash"
 	"math/big"
+	"sort"
 	"strings"
 	"testing"
 
@@ -36,6 +37,7 @@ var vC07Rsa = func() *rsa.PrivateKey {
 	if err != nil {
 		panic(err)
 	}
+	k.Precompute()
 	return k
 }()
 
@@ -327,9 +329,162 @@ func vC07Jwk(r *vRng) []byte {
 	return out
 }
 
+// ---- grammar-derived JSON objects: every SUBSET of the members a parser looks at, each present
+// member valid / empty / not base64 / wrong length / wrong JSON type / zero / huge ----
+func vC07Variant(r *vRng, valid interface{}) interface{} {
+	switch r.intn(12) {
+	case 0:
+		return ""
+	case 1:
+		return "!!not*base64!!"
+	case 2:
+		return vC07B64(r.bytes(r.pickInt(1, 2, 15, 31, 33, 65, 67)))
+	case 3:
+		return r.pickInt(0, 5, -1)
+	case 4:
+		return nil
+	case 5:
+		return []interface{}{"AA"}
+	case 6:
+		return map[string]interface{}{"a": "AA"}
+	case 7:
+		return "AA"
+	case 8:
+		return vC07B64(r.bytes(512))
+	case 9:
+		return true
+	}
+	return valid
+}
+
+// a subset of the members of obj (keys visited in sorted order: generation must not depend on map
+// iteration): half of the time "all but one or two" members, all valid; otherwise each member is
+// kept with probability keep/8 and is valid or, with probability variant/8, a variant
+func vC07Subset(r *vRng, obj map[string]interface{}, keep int, variant int) map[string]interface{} {
+	keys := make([]string, 0, len(obj))
+	for k := range obj {
+		keys = append(keys, k)
+	}
+	sort.Strings(keys)
+	out := map[string]interface{}{}
+	if r.chance(1, 2) && len(keys) > 0 {
+		drop := map[int]bool{r.intn(len(keys)): true}
+		if r.chance(1, 2) {
+			drop[r.intn(len(keys))] = true
+		}
+		for i, k := range keys {
+			if !drop[i] {
+				out[k] = obj[k]
+			}
+		}
+		return out
+	}
+	for _, k := range keys {
+		if r.intn(8) >= keep {
+			continue
+		}
+		if r.intn(8) < variant {
+			out[k] = vC07Variant(r, obj[k])
+		} else {
+			out[k] = obj[k]
+		}
+	}
+	return out
+}
+
+func vC07JwkValid(r *vRng) map[string]interface{} {
+	rk := vC07Rsa
+	b := func(x *big.Int) string { return vC07B64(x.Bytes()) }
+	switch r.intn(6) {
+	case 0, 1: // RSA private with every optional member
+		return map[string]interface{}{"kty": "RSA", "n": b(rk.N), "e": "AQAB", "d": b(rk.D), "p": b(rk.Primes[0]), "q": b(rk.Primes[1]),
+			"dp": b(rk.Precomputed.Dp), "dq": b(rk.Precomputed.Dq), "qi": b(rk.Precomputed.Qinv), "oth": []interface{}{},
+			"kid": "k1", "use": "sig", "alg": "RS256", "x5c": []interface{}{}}
+	case 2: // RSA public
+		return map[string]interface{}{"kty": "RSA", "n": b(rk.N), "e": "AQAB", "kid": "k2", "use": "enc", "alg": "RSA-OAEP"}
+	case 3: // EC private
+		e := vC07Ec256
+		return map[string]interface{}{"kty": "EC", "crv": "P-256", "x": b(e.X), "y": b(e.Y), "d": b(e.D), "kid": "k3", "use": "sig", "alg": "ES256"}
+	case 4: // EC public, other curves
+		e := []*ecdsa.PrivateKey{vC07Ec256, vC07Ec384, vC07Ec521}[r.intn(3)]
+		return map[string]interface{}{"kty": "EC", "crv": e.Curve.Params().Name, "x": b(e.X), "y": b(e.Y), "kid": "k4"}
+	}
+	return map[string]interface{}{"kty": "oct", "k": vC07B64(vC07Sym[:32]), "kid": "k5", "alg": "HS256", "use": "sig"}
+}
+
+func vC07JwkSubset(r *vRng) []byte {
+	one := func() map[string]interface{} {
+		k := vC07Subset(r, vC07JwkValid(r), r.pickInt(8, 7, 7, 6, 4), r.pickInt(0, 0, 1, 2, 4))
+		if r.chance(1, 6) {
+			// members of another key type on top
+			extra := vC07Subset(r, vC07JwkValid(r), 3, 1)
+			for n, v := range extra {
+				if _, ok := k[n]; !ok {
+					k[n] = v
+				}
+			}
+		}
+		if r.chance(7, 8) {
+			if _, ok := k["kty"]; !ok {
+				k["kty"] = r.pickStr("RSA", "RSA", "EC", "oct")
+			}
+		}
+		return k
+	}
+	var v interface{} = one()
+	if r.chance(1, 4) {
+		var ks []interface{}
+		for i, n := 0, r.rng(0, 3); i < n; i++ {
+			ks = append(ks, one())
+		}
+		v = map[string]interface{}{"keys": ks}
+		if r.chance(1, 8) {
+			v = map[string]interface{}{"keys": vC07Variant(r, ks)}
+		}
+	}
+	out, _ := json.Marshal(v)
+	return out
+}
+
+func vC07HeaderSubset(r *vRng) map[string]interface{} {
+	h := map[string]interface{}{"alg": r.pickStr(append(vC07KeyAlgs, vC07SigAlgs...)...), "enc": r.pickStr(vC07Encs...), "zip": "DEF",
+		"crit": []interface{}{"exp"}, "kid": "k", "nonce": "n", "jwk": vC07JwkValid(r), "epk": vC07Subset(r, vC07JwkValid(r), 7, 1),
+		"apu": vC07B64(r.bytes(4)), "apv": vC07B64(r.bytes(4)), "iv": vC07B64(r.bytes(12)), "tag": vC07B64(r.bytes(16)),
+		"p2s": vC07B64(r.bytes(8)), "p2c": 1000, "typ": "JWT", "cty": "x"}
+	return vC07Subset(r, h, r.pickInt(2, 3, 4, 6), r.pickInt(0, 1, 2))
+}
+
+func vC07JoseJsonSubset(jwe bool) func(r *vRng) []byte {
+	return func(r *vRng) []byte {
+		prot := func() string {
+			b, _ := json.Marshal(vC07HeaderSubset(r))
+			if r.chance(1, 10) {
+				b = []byte(r.pickStr("", "{", "null", "[]", "5", "{\"alg\":5}"))
+			}
+			return vC07B64(b)
+		}
+		var obj map[string]interface{}
+		if jwe {
+			obj = map[string]interface{}{"protected": prot(), "unprotected": vC07HeaderSubset(r), "header": vC07HeaderSubset(r),
+				"recipients": []interface{}{vC07Subset(r, map[string]interface{}{"header": vC07HeaderSubset(r), "encrypted_key": vC07B64(vC07Lens(r, 0, 24, 40))}, 6, 1),
+					vC07Subset(r, map[string]interface{}{"header": vC07HeaderSubset(r), "encrypted_key": vC07B64(vC07Lens(r, 0, 24))}, 6, 2)},
+				"aad": vC07B64(vC07Lens(r, 0, 5)), "encrypted_key": vC07B64(vC07Lens(r, 0, 24, 40)), "iv": vC07B64(vC07Lens(r, 0, 12, 16)),
+				"ciphertext": vC07B64(vC07Lens(r, 0, 16, 33)), "tag": vC07B64(vC07Lens(r, 0, 16, 32))}
+		} else {
+			sig := func() map[string]interface{} {
+				return vC07Subset(r, map[string]interface{}{"protected": prot(), "header": vC07HeaderSubset(r), "signature": vC07B64(vC07Lens(r, 0, 32, 64, 256))}, 6, 1)
+			}
+			obj = map[string]interface{}{"payload": vC07B64(vC07Lens(r, 0, 10)), "protected": prot(), "header": vC07HeaderSubset(r),
+				"signature": vC07B64(vC07Lens(r, 0, 32, 64)), "signatures": []interface{}{sig(), sig()}}
+		}
+		out, _ := json.Marshal(vC07Subset(r, obj, r.pickInt(4, 5, 6, 7), r.pickInt(0, 1, 2)))
+		return out
+	}
+}
+
 func TestVerifC07Jose(t *testing.T) {
 	decs := []*vC07Dec{
-		{name: "jose.jwe", gen: vC07Jwe, run: func(b []byte) bool {
+		{name: "jose.jwe", gen: vC07Mix(vC07Jwe, vC07JoseJsonSubset(true)), run: func(b []byte) bool {
 			obj, err := ParseEncrypted(string(b))
 			if err != nil {
 				return true
@@ -348,7 +503,7 @@ func TestVerifC07Jose(t *testing.T) {
 			}
 			return e1 != nil && e2 != nil && e3 != nil && e4 != nil && e5 != nil
 		}},
-		{name: "jose.jws", gen: vC07Jws, run: func(b []byte) bool {
+		{name: "jose.jws", gen: vC07Mix(vC07Jws, vC07JoseJsonSubset(false)), run: func(b []byte) bool {
 			obj, err := ParseSigned(string(b))
 			if err != nil {
 				return true
@@ -366,7 +521,7 @@ func TestVerifC07Jose(t *testing.T) {
 			_, _ = obj.CompactSerialize()
 			return e1 != nil && e2 != nil && e3 != nil && e4 != nil && e5 != nil
 		}},
-		{name: "jose.jwk", gen: vC07Jwk, run: func(b []byte) bool {
+		{name: "jose.jwk", gen: vC07Mix(vC07Jwk, vC07JwkSubset), run: func(b []byte) bool {
 			var k JsonWebKey
 			e1 := k.UnmarshalJSON(b)
 			if e1 == nil {
@@ -378,6 +533,13 @@ func TestVerifC07Jose(t *testing.T) {
 			e2 := json.Unmarshal(b, &ks)
 			if e2 == nil {
 				_ = ks.Key("id")
+				_ = ks.Key("k1")
+				for i := range ks.Keys {
+					kk := &ks.Keys[i]
+					_ = kk.Valid()
+					_, _ = kk.Thumbprint(5)
+					_, _ = kk.MarshalJSON()
+				}
 			}
 			return e1 != nil && e2 != nil
 		}},
@@ -471,3 +633,12 @@ func TestVerifC07Jose(t *testing.T) {
 }
 
 func FuzzVerifC07Jose(f *testing.F) { vC07FuzzTarget(f, TestVerifC07Jose) }
+
+func vC07Mix(a, b func(r *vRng) []byte) func(r *vRng) []byte {
+	return func(r *vRng) []byte {
+		if r.chance(1, 2) {
+			return a(r)
+		}
+		return b(r)
+	}
+}
